@@ -188,8 +188,8 @@ PROPS["C11"] = dict(
 )
 
 PROPS["C07"] = dict(
-    modules=["Sth.Props.C01", "Sth.Props.C08"],
-    theorems=list(CORE_RL),
+    modules=["Sth.Props.C01", "Sth.Props.C08", "Sth.Props.C07"],
+    theorems=list(CORE_RL) + ['Sth.C07_fsck_clean', 'Sth.C07_disk_consistent', 'Sth.C07_recovered_table', 'Sth.C07_recovered_table_reopen', 'Sth.C07_fsck_clean_reopen', 'Sth.C07_recovered_table_after_close', 'Sth.C07_bucket_clauses', 'Sth.C07_bucket_points_at_own_record_list', 'Sth.C07_entries_sorted_prefix_free_distinct', 'Sth.C07_entry_names_live_matching_primary_record', 'Sth.C07_freelist_disjoint_from_live', 'Sth.C07_recorded_never_current', 'Sth.C07_example_clean_everywhere', 'Sth.C07_negative_deleted_record', 'Sth.C07_negative_wrong_bucket', 'Sth.C07_negative_stale_record_list', 'Sth.C07_negative_torn_record_list', 'Sth.C07_negative_live_on_freelist', 'Sth.C07_negative_recovered'],
     runs=[dict(engine="seq", quick=250, thorough=10000, extra=["-profile", "c07"], nontrivial=["fsck-2-buckets"])],
     rule="C04-style traces (flushes, reopen, both GCs, small files); after every flush, GC cycle and reopen the FULL bytes of every file "
          "and the live bucket table of the real store are handed to the Lean fsck (Sth/Model/Fsck.lean), which checks every clause of the "
